@@ -44,6 +44,15 @@ impl MarkerEventContainer for LuaDocParser<'_, '_> {
 }
 
 impl<'b> LuaDocParser<'_, 'b> {
+    /// see `LuaParser::enter_nesting`: doc types share the parser's nesting budget
+    pub fn enter_nesting(&mut self) -> bool {
+        self.lua_parser.enter_nesting()
+    }
+
+    pub fn leave_nesting(&mut self) {
+        self.lua_parser.leave_nesting()
+    }
+
     pub fn parse(lua_parser: &mut LuaParser<'_>, tokens: &[LuaTokenData]) {
         let lexer = LuaDocLexer::new(lua_parser.origin_text());
 
